@@ -81,9 +81,12 @@ Record Sim4pre (T W : list path) (w : world) (s : kstate) : Prop := {
 Definition Sim4c (T W : list path) (w : world) (s : kstate) : Prop :=
   Sim4pre T W w s /\ LiveClaimed T w.
 
-(* with the invariant of the hash memo (HashMemoInv, carried by the mechanism alone) *)
+Definition Wincl (W W' : list path) : Prop := forall x, mem_path x W = true -> mem_path x W' = true.
+
+(* with the invariant of the hash memo (HashMemoInv, carried by the mechanism alone), and W among
+   the targets passed to start_building_file in this build *)
 Definition Sim4 (T W : list path) (w : world) (s : kstate) : Prop :=
-  Sim4c T W w s /\ HInv w /\ old_keys_ok (w_old w).
+  Sim4c T W w s /\ HInv w /\ old_keys_ok (w_old w) /\ Wincl W (c_built (w_new w)).
 
 (* ------------------------------------------------------------------ the context of a run *)
 (* [st]: the targets of the build_file functions that are running, innermost first; [tg]: the
@@ -215,8 +218,6 @@ Proof.
 Qed.
 
 (* ------------------------------------------------------------------ what a run / a node establishes *)
-Definition Wincl (W W' : list path) : Prop := forall x, mem_path x W = true -> mem_path x W' = true.
-
 Definition run_post (st : list path) (tg : option path) (W : list path) (w w' : world)
            (r : outcome) (l : list op) (s' : kstate) (r' : outcome) (pend' : option string) (l' : list op) : Prop :=
   exists T' W', Sim4 T' W' w' s' /\ Ctx4 st tg pend' w' /\ frame4 st tg w w' /\
@@ -255,19 +256,37 @@ Definition SimSetup (T W : list path) (p : path) (w : world) (s0 : kstate) : Pro
   Sim4pre (p :: T) W w s0 /\ LiveClaimed T w /\ cache_has_file (w_new w) p = false /\
   isdir (w_fs w) p = false.
 
-(* (a) the decision: ViewK8.lookup_agree_statement, and its analogue for subbuild *)
+(* (a) the decision.  In the form of ViewK8.lookup_agree_statement (and its analogue for subbuild) ... *)
 Definition sblookup_agree_statement : Prop :=
   forall T W w s key f wl cached,
     Sim3 W w s -> RInv2 (fun _ => True) T w -> cache_has_subbuild (w_new w) key = false ->
     subbuild_cache_lookup key f w = (wl, inl cached) ->
     (cached = None <-> core_subhit s f key = None).
 
+(* ... and in the form in which the node lemmas use it: everything known at that point is offered
+   as a premise (SimA2Node.v shows that the statements above imply these) *)
+Definition lookup_agree_hyp : Prop :=
+  forall st T W w s0 p f sa skw wl cached,
+    SimSetup T W p w s0 -> HInv w -> old_keys_ok (w_old w) ->
+    (forall y, inprog w y <-> In y st) -> tgt_conds st (w_old w) p ->
+    build_file_cache_lookup p f sa skw w = (wl, inl cached) ->
+    (cached = None <-> core_hit s0 s0 p f sa skw = None).
+
+Definition sblookup_agree_hyp : Prop :=
+  forall st T W w s f sa skw wl cached,
+    Sim4 T W w s -> (forall y, inprog w y <-> In y st) ->
+    sanitized sa = true -> sanitized skw = true -> pv_wf sa = true -> pv_wf skw = true ->
+    cache_has_subbuild (w_new w) (subbuild_key f sa skw) = false ->
+    subbuild_cache_lookup (subbuild_key f sa skw) f w = (wl, inl cached) ->
+    (cached = None <-> core_subhit s f (subbuild_key f sa skw) = None).
+
 (* (b) the replayed state corresponds: when both sides accept the record, reusing it
    (_apply_cached_suboperations, _use_cached_operation / adopt) leads to related states, and
    leaves the files of the running functions alone *)
 Definition hit_agree_hyp : Prop :=
-  forall st tg pend T W w s0 p c f sa skw wl co w1 r fnode subs' ret' rr,
-    SimSetup T W p w s0 -> Ctx4 st tg pend w -> tgt_conds st (w_old w) p ->
+  forall st T W w s0 p c f sa skw wl co w1 r fnode subs' ret' rr,
+    SimSetup T W p w s0 -> HInv w -> old_keys_ok (w_old w) ->
+    (forall y, inprog w y <-> In y st) -> tgt_conds st (w_old w) p ->
     build_file_cache_lookup p f sa skw w = (wl, inl (Some co)) ->
     core_hit s0 s0 p f sa skw = Some (fnode, subs', ret', rr) ->
     bf_reuse p c f sa skw (Some co) wl = (w1, r) ->
@@ -288,8 +307,8 @@ Definition sb_reuse (fname : string) (sargs skw : pyval) (co : op) : M (option (
   end)).
 
 Definition sbhit_agree_hyp : Prop :=
-  forall st tg pend T W w s f sa skw wl co w1 r subs' ret' rr,
-    Sim4 T W w s -> Ctx4 st tg pend w ->
+  forall st T W w s f sa skw wl co w1 r subs' ret' rr,
+    Sim4 T W w s -> (forall y, inprog w y <-> In y st) ->
     sanitized sa = true -> sanitized skw = true -> pv_wf sa = true -> pv_wf skw = true ->
     cache_has_subbuild (w_new w) (subbuild_key f sa skw) = false ->
     subbuild_cache_lookup (subbuild_key f sa skw) f w = (wl, inl (Some co)) ->
